@@ -173,7 +173,13 @@ func (t *transport) Close(fn ...types.Callable) {
 	if verifhook.Enabled {
 		verifhook.Point("transport.Close.window", t._proto_)
 	}
-	t.SetReadyState("closing")
+	// one step: two closers that both passed the test above must not both run DoClose
+	// (on polling each would hand a close packet to a writer goroutine; the second one finds
+	// no pending request and reports a spurious "polling write error")
+	if !t._readyState.CompareAndSwap("open", "closing") {
+		return
+	}
+	transport_log.Debug(`readyState updated from %s to %s (%s)`, "open", "closing", t._proto_.Name())
 	fn = append(fn, nil)
 	t._proto_.DoClose(fn[0])
 }
